@@ -103,15 +103,48 @@ ABS = "engine::alpha_beta_search"
 OOT = "utils::out_of_time"
 
 
-def _table_calls(b, table_local, mode):
-    """Blocks calling a DrawTable method / HashMap::insert on the table rooted at table_local."""
+TABLE_TY = "draw_table::DrawTable"
+
+
+def _session_table_places(b):
+    """Where the command loop keeps its repetition table: named locals of type DrawTable, or a
+    DrawTable field of a named struct local (`session.draw_table`).  [(local, (field names..))]"""
+    out = []
+    for l in sorted(b.names):
+        ty = b.local_ty(l)
+        if ty == TABLE_TY:
+            out.append((l, ()))
+            continue
+        try:
+            vs = b.facts.adt(ty)["variants"]
+        except Exception:
+            continue
+        if len(vs) == 1:
+            for fd in vs[0]["fields"]:
+                if fd["ty"] == TABLE_TY:
+                    out.append((l, (fd["name"],)))
+    return out
+
+
+def _is_place_arg(b, o, place):
+    """The call operand is (a reference to) the given place."""
+    al = operand_alias(b, o)
+    if al is None or al[0] != place[0]:
+        return False
+    proj = tuple(e.get("name") for e in al[2] if e["k"] != "deref") if al[1] != "val" else ()
+    if any(e["k"] not in ("field", "deref") for e in (al[2] if al[1] != "val" else [])):
+        return False
+    return proj == place[1]
+
+
+def _table_calls(b, place, mode=None):
+    """Blocks calling a DrawTable method / HashMap::insert on the table at `place` (local, fields)."""
     out = {}
     for bb, t in b.iter_calls():
         c = callee_of(t) or ""
         if not t["args"]:
             continue
-        al = operand_alias(b, t["args"][0])
-        if al is None or al[0] != table_local:
+        if not _is_place_arg(b, t["args"][0], place):
             continue
         if c.startswith("draw_table::DrawTable::"):
             out[bb] = c.split("::")[-1]
@@ -130,22 +163,35 @@ def r10_12(ctx):
     pb = f.body(POP)
     ctx.note_fn(LOOP_FN, POP)
     lex, pex = Exprs(lb), Exprs(pb)
-    # the table local of the command loop and the position arm
-    tables = [l for l in range(len(lb.locals)) if lb.local_ty(l) == "draw_table::DrawTable"]
+    # the table of the command loop: a local, or a field of the session struct
+    tables = _session_table_places(lb)
     if len(tables) != 1:
-        raise ShapeNotRecognised("play_game_uci: expected one DrawTable local, found %d" % len(tables))
+        raise ShapeNotRecognised("play_game_uci: expected one DrawTable place, found %d" % len(tables))
     T = tables[0]
     pcalls = lb.calls_to(POP)
     if len(pcalls) != 1:
         raise ShapeNotRecognised("play_game_uci: %d calls of play_out_position" % len(pcalls))
     pbb, pt = pcalls[0]
-    passes_table = any((operand_alias(lb, a) or (None,))[0] == T for a in pt["args"])
+    passes_table = any(_is_place_arg(lb, a, T) for a in pt["args"])
     ctx.ob("position-arm:rebuilds-the-session-table", passes_table, lb.where(lb.term_loc(pbb)), "play_out_position receives the session's repetition table")
-    tc = _table_calls(lb, T, "loop")
-    clears = [bb for bb, k in tc.items() if k == "clear"]
-    cleared_in_arm = any(lb.node_dominates(c, pbb) and c != pbb and
-                         any(d[0] == "bin" and d[1] == "Eq" and ("str", "position") in (strip_refs(d[2]), strip_refs(d[3])) and (vals is None and excl == [0] or vals == [1])
-                             for d, vals, excl, s, tg in dominating_facts(lb, lex, c)) for c in clears)
+    tc = _table_calls(lb, T)
+    clears = {bb for bb, k in tc.items() if k == "clear"}
+    # cleared for *this* command: every path from the head of the command loop to the rebuild passes a
+    # clear of the session table (whatever the dispatch looks like: string match, classifier enum,
+    # session method), and nothing else touches the table between that clear and the rebuild
+    loops = lb.loops()
+    inl = [h for h, body_ in loops.items() if pbb in body_]
+    cleared_in_arm = False
+    if inl and clears:
+        h = max(inl, key=lambda hh: len(loops[hh]))
+        touches = set()
+        for bb, t in lb.iter_calls():
+            if bb != pbb and bb not in clears and any(_is_place_arg(lb, a, T) for a in t["args"]):
+                c = callee_of(t) or ""
+                if not c.endswith("Clone>::clone") and not c.endswith("::is_threefold_repetition"):
+                    touches.add(bb)
+        cleared_in_arm = (h in clears or not lb.reaches(h, pbb, removed_nodes=clears)) and \
+            all(not lb.reaches(m, pbb, removed_nodes=clears) for m in touches)
     # inside play_out_position
     tp = [i for i in range(1, pb.arg_count + 1) if pb.local_ty(i) == "&mut draw_table::DrawTable"]
     if len(tp) != 1:
@@ -204,6 +250,41 @@ def r10_12(ctx):
     ctx.ob("play_out_position:start-position-recorded", bool(ok), pb.where(pb.term_loc(ins[0])) if ins else pb.file,
            "every path to return records the start position with count 1 (insert(board.zobrist_key, 1), or add(board) on the just-cleared table); %s" % (
                "holds" if ok else "NOT on all paths: some `position` commands leave the record without their own start position"))
+    # the position recorded as the start is the one the command describes: the board whose key is stored
+    # is not replaced afterwards (recording the default board first and applying the `fen` later records
+    # a position that never occurred)
+    late_defs = []
+    def _board_locals_of(bb):
+        """BoardState locals whose key / value the recording call at bb is given (syntactically: value
+        numbering would replace a freshly built board by the expression that built it)."""
+        out = set()
+        t_ = pb.term(bb)
+        for o in t_["args"][1:]:
+            if o.get("k") not in ("copy", "move"):
+                continue
+            al = operand_alias(pb, o)
+            if al and pb.local_ty(al[0]) == "board::BoardState":
+                out.add(al[0])
+            l0 = o["place"]["local"]
+            for (dbb, di), kind in pb.reaching().all_sites(l0):
+                st_ = pb.stmts(dbb)
+                if kind == "whole" and di < len(st_) and st_[di]["rv"]["k"] == "use" and st_[di]["rv"]["op"].get("k") in ("copy", "move"):
+                    src = st_[di]["rv"]["op"]["place"]
+                    if pb.local_ty(src["local"]) == "board::BoardState":
+                        out.add(src["local"])
+        return out
+    for bb in ins:
+        roots = _board_locals_of(bb)
+        for L in roots:
+            if pb.local_ty(L) != "board::BoardState":
+                continue
+            for (dbb, di), kind in pb.reaching().all_sites(L):
+                if kind == "whole" and (pb.reaches(bb, dbb) or (dbb == bb and di >= len(pb.stmts(bb)))):
+                    late_defs.append((bb, (dbb, di)))
+    ctx.ob("play_out_position:start-position-is-the-described-one", not late_defs, pb.where(late_defs[0][1]) if late_defs else pb.file,
+           "the board recorded as the start position is not reassigned after it was recorded" if not late_defs else
+           "the board is (re)built at %s after its key was recorded at %s: the record holds a start position the command does not describe" % (
+               pb.where(late_defs[0][1]), pb.where(pb.term_loc(late_defs[0][0]))))
     # not inside the move loop
     loops = pb.loops()
     in_loop = [bb for bb in ins for h, body_ in loops.items() if bb in body_]
@@ -373,6 +454,28 @@ def r10_8(ctx):
     for loc, st in b.iter_stmts():
         if st["k"] == "assign" and st["place"]["local"] == tp[0] and st["place"]["proj"]:
             uses.append((loc[0], "direct write"))
+    # ... and in the command loop nothing but `clear` and the rebuild by play_out_position writes the
+    # session's record (a `go` arm that also records the position it played changes what the next `go`
+    # without a `position` sees, and the counters of a finished game grow with every `go`)
+    if f.has_body(LOOP_FN):
+        lb = f.body(LOOP_FN)
+        ctx.note_fn(LOOP_FN)
+        for T in _session_table_places(lb):
+            writers = []
+            for bb, t in lb.iter_calls():
+                c = callee_of(t) or ""
+                for i, a in enumerate(t["args"]):
+                    if not _is_place_arg(lb, a, T):
+                        continue
+                    arg_ty = t["arg_tys"][i] if i < len(t.get("arg_tys", [])) else ""
+                    if not arg_ty.startswith("&mut "):
+                        continue
+                    if c in (POP, "uci::find_and_play_best_move") or c.endswith("::clear"):
+                        continue
+                    writers.append((bb, c))
+            ctx.ob("command-loop:record-written-only-by-position", not writers, lb.where(lb.term_loc(writers[0][0])) if writers else lb.file,
+                   "the session's repetition record is written only by clear/play_out_position%s" % (
+                       "" if not writers else ": also by `%s`" % writers[0][1]))
     bad = [(bb, c) for bb, c in uses if not c.endswith("DrawTable as std::clone::Clone>::clone")]
     ctx.ob("find_and_play_best_move:record-only-cloned", not bad and bool(uses), b.where(b.term_loc(bad[0][0])) if bad else b.file,
            "the repetition record is used by: %s; only a clone may leave this function, otherwise a second `go` without a new `position` searches with a changed record" % sorted({c.split("::")[-1] for _, c in uses}))
